@@ -224,16 +224,21 @@ func (h *c15hRun) shift(d time.Duration) {
 }
 
 func (h *c15hRun) writeLastRefresh() {
+	// one read-modify-write of the "snaps" entry (same effect as Get/Set of
+	// every SnapState with LastRefreshTime changed)
+	var snaps map[string]map[string]interface{}
+	if err := h.st.Get("snaps", &snaps); err != nil {
+		h.broken("cannot get snaps: %v", err)
+		return
+	}
 	for _, n := range c15hAll {
-		var ss snapstate.SnapState
-		if err := snapstate.Get(h.st, n, &ss); err != nil {
-			h.broken("cannot get snap %s: %v", n, err)
+		if snaps[n] == nil {
+			h.broken("snap %s is not in the state", n)
 			return
 		}
-		lr := h.lastRefresh[n]
-		ss.LastRefreshTime = &lr
-		snapstate.Set(h.st, n, &ss)
+		snaps[n]["last-refresh-time"] = h.lastRefresh[n].Format(time.RFC3339Nano)
 	}
+	h.st.Set("snaps", snaps)
 }
 
 // ---- observation ----------------------------------------------------------------------
@@ -363,25 +368,33 @@ func (h *c15hRun) bounds() []time.Time {
 var c15hOffsets = []time.Duration{-time.Hour, -10 * time.Second, 10 * time.Second, time.Hour}
 
 // sweep probes HeldSnaps around every bound of every live episode and at one
-// far instant, by moving the clock there and back.
+// far instant: the clock is moved forward from probe instant to probe instant
+// and finally back to where it was.
 func (h *c15hRun) sweep() {
+	now := time.Now()
+	var ds []time.Duration
 	for _, b := range h.bounds() {
 		for _, off := range c15hOffsets {
-			d := b.Add(off).Sub(time.Now())
-			if d <= 0 || h.failed {
-				continue
+			if d := b.Add(off).Sub(now); d > 0 {
+				ds = append(ds, d)
 			}
-			h.shift(d)
-			h.observe(true)
-			h.shift(-d)
 		}
 	}
-	if !h.failed {
-		d := c15hTotalBound + time.Duration(1+h.r.Intn(10*24))*time.Hour
-		h.shift(d)
+	ds = append(ds, c15hTotalBound+time.Duration(1+h.r.Intn(10*24))*time.Hour)
+	sort.Slice(ds, func(i, j int) bool { return ds[i] < ds[j] })
+	var moved time.Duration
+	for _, d := range ds {
+		if h.failed {
+			break
+		}
+		if d-moved < time.Second && moved > 0 {
+			continue
+		}
+		h.shift(d - moved)
+		moved = d
 		h.observe(true)
-		h.shift(-d)
 	}
+	h.shift(-moved)
 }
 
 // ---- operations --------------------------------------------------------------------------
@@ -874,23 +887,23 @@ func (s *verifC15HookSuite) TestVerifC15Hooks(c *C) {
 	chk.Rule("[unit hooks] A case is a generated history for 2-3 gating snaps (snap-a, snap-c on base-snap-a; snap-d on base-snap-d; kernel-k affects all) of 16-60 operations: auto-refresh attempts in which the real HookManager runs the gate-auto-refresh hooks of one, two or all gating snaps in one change, each with a mocked hook script {snapctl refresh --hold | --proceed | nothing} x {exit 0 | exit non-zero | exit with snapctl's status} (via the real ctlcmd.Run) over random refresh-candidates; after an attempt the candidates nobody holds are usually refreshed; manual refreshes of held snaps; emulated clock advances (1 h..45 d, or landing -1h/-1min/+1min/+1h/+5h around a bound of a live episode). Non-trivial: a hold was established through the hook layer AND at least one hook ran when a bound of a live episode had already been reached. Distinct by the sequence of operation shapes (scripts with snapctl result, candidates, bucketed advances, which bound was hit).")
 	chk.Assume("[unit hooks] snapstate's clock cannot be replaced from package hookstate_test: a clock advance by d is emulated by shifting first-held / hold-until in 'snaps-hold' and every snap's LastRefreshTime d into the past; instants chosen by snapd are known to the model as [before call, after call] intervals and verdicts are only given when definite")
 	chk.Assume("[unit hooks] one snapctl call per hook run (a second --hold after a refused one in the same run is generated only with VERIF_C15_DOUBLE_HOLD=1); the refresh of a snap is emulated by editing 'snaps-hold' and LastRefreshTime (the real reset path is covered by the snapstate unit); a hook run is one hold request: the episode bookkeeping is updated from HeldSnaps after the run, a hold that is refused and re-established within one run continues the old episode")
-	n := kit.Scale(120, 500)
+	n := kit.Scale(60, 400)
 	if only := kit.OnlyCase(); only >= 0 {
 		chk.MinDistinct(0)
 		s.c15hHistory(c, chk, only)
 		return
 	}
-	chk.Floor("hook_runs", 1000)
+	chk.Floor("hook_runs", 500)
 	chk.Floor("hook_episodes", 300)
 	chk.Floor("hook_snapctl_hold_ok", 200)
 	chk.Floor("hook_snapctl_hold_refused", 30)
-	chk.Floor("hook_error_path_after_refused_hold", 10)
+	chk.Floor("hook_error_path_after_refused_hold", 30)
 	chk.Floor("hook_error_path_without_snapctl", 100)
 	chk.Floor("hook_runs_with_bound_reached_48h", 30)
 	chk.Floor("hook_runs_with_bound_reached_90d", 10)
 	chk.Floor("hook_probes", 3000)
-	chk.Floor("hook_refreshes_of_held_snap", 50)
-	chk.MinDistinct(30)
+	chk.Floor("hook_refreshes_of_held_snap", 30)
+	chk.MinDistinct(20)
 	for idx := 0; idx < n; idx++ {
 		if idx > 0 {
 			// a fresh overlord, state and snaps for every history
